@@ -107,7 +107,7 @@ KINDS = {
     "date": ({"type": "string", "format": "date"}, ["2020-02-29"], [], True),
 }
 QUICK_KINDS = ["bool", "u8", "i64", "nz32", "f64", "string", "str_max2", "str_enum", "opt_scalar", "opt_struct", "vec", "set", "map_int", "map_any",
-               "tuple1", "tuple2", "struct", "struct_req_nullable", "struct_nested_defaults", "struct_inline_defaults", "enum_inline_defaults", "struct_flat", "enum_ext", "enum_int", "enum_adj", "enum_unt", "enum_ext_tuple", "enum_adj_tuple", "enum_unt_struct", "deny_list", "str_pattern",
+               "tuple1", "tuple2", "struct", "struct_closed", "struct_renamed", "alias", "struct_req_nullable", "struct_nested_defaults", "struct_inline_defaults", "enum_inline_defaults", "struct_flat", "enum_ext", "enum_int", "enum_adj", "enum_unt", "enum_ext_tuple", "enum_adj_tuple", "enum_unt_struct", "deny_list", "str_pattern",
                "typed_enum", "boxed", "unit", "uuid"]
 
 
